@@ -137,10 +137,10 @@ func newState(root common.Hash, db state.Database) *state.StateDB {
 }
 
 // setups: pre-states built through the real API (kind 0..5).
-const nSetups = 6
+const nSetups = 7
 
 func setupName(k int) string {
-	return []string{"empty", "live-committed-size3", "live+deleted", "reopened-from-root", "live-journal-base", "live-size-1+1"}[k]
+	return []string{"empty", "live-committed-size3", "live+deleted", "reopened-from-root", "live-journal-base", "live-size-1+1", "deleted-holding-value"}[k]
 }
 
 func populate(s *state.StateDB) {
@@ -184,6 +184,18 @@ func buildSetup(kind int) *state.StateDB {
 		populate(s)
 		s.SetState(addrs[1], slots[0], common.BytesToHash([]byte{9}))
 		s.IntermediateRoot(true)
+		s.Finalize(true)
+	case 6: // both accounts self-destructed and then credited / written in the same transaction: Finalize
+		// leaves deleted objects that still hold a balance, a nonce and dirty storage in the live set
+		populate(s)
+		s.IntermediateRoot(true)
+		s.Finalize(true)
+		s.Suicide(addrs[0])
+		s.AddBalance(addrs[0], big.NewInt(5))
+		s.SetState(addrs[0], slots[0], common.BytesToHash([]byte{6}))
+		s.Suicide(addrs[1])
+		s.AddBalance(addrs[1], big.NewInt(7))
+		s.SetNonce(addrs[1], 3)
 		s.Finalize(true)
 	}
 	s.Prepare(thash, 0)
@@ -571,6 +583,9 @@ func apply(s *state.StateDB, o Op) Out {
 		case "EndTx": // transaction boundary as in core/state_processor.go applyTransaction: Finalize, then Prepare of the next one
 			s.Finalize(true)
 			s.Prepare(common.BytesToHash([]byte{0x78, byte(o.V)}), int(o.V))
+		case "RootTx": // the other in-block boundary: IntermediateRoot (Finalize + tries updated), then Prepare
+			s.IntermediateRoot(true)
+			s.Prepare(common.BytesToHash([]byte{0x78, byte(o.V)}), int(o.V))
 		default:
 			panic("unknown op " + o.K)
 		}
@@ -582,6 +597,64 @@ func apply(s *state.StateDB, o Op) Out {
 }
 
 type failure struct{ sig, what string }
+
+// ---------- monitor: an account that does not exist is (re-)created empty ----------
+// Whatever a destroyed predecessor held when an earlier transaction's Finalize removed it (value sent to
+// it after its SELFDESTRUCT, nonce, code, storage, size counter) must not reappear: after a write to an
+// address that did not exist, the account is exactly Account{} plus that write.
+
+func freshOp(k string) bool {
+	switch k {
+	case "AddBalance", "SubBalance", "SetBalance", "SetNonce", "SetCode", "SetState", "CreateAccount", "GetOrNew":
+		return true
+	}
+	return false
+}
+
+func notFresh(s *state.StateDB, o Op) (out []string) {
+	v := s.VerifC12Account(addrs[o.A], slots)
+	if !v.Present || v.Deleted {
+		return []string{"exists"} // every one of these writes instantiates the account (GetOrNewStateObject / createObject)
+	}
+	var nonce uint64
+	bal := new(big.Int)
+	var code []byte
+	sl := make([]int64, len(slots))
+	switch o.K {
+	case "AddBalance", "SetBalance":
+		bal.SetInt64(o.V)
+	case "SubBalance":
+		bal.SetInt64(-o.V)
+	case "SetNonce":
+		nonce = uint64(o.V)
+	case "SetCode":
+		code = o.C
+	case "SetState":
+		sl[o.S] = o.V
+	}
+	if v.Nonce != nonce {
+		out = append(out, "nonce")
+	}
+	if v.Balance.Cmp(bal) != 0 {
+		out = append(out, "balance")
+	}
+	if !bytes.Equal(v.Code, code) {
+		out = append(out, "code")
+	}
+	if v.Size.Sign() != 0 {
+		out = append(out, "size")
+	}
+	if v.Suicided {
+		out = append(out, "suicided")
+	}
+	for i := range slots {
+		if v.Slots[i].Big().Cmp(big.NewInt(sl[i])) != 0 {
+			out = append(out, "storage")
+			break
+		}
+	}
+	return
+}
 
 // runHistory executes h on s, evaluating the revert-restores monitor at every successful revert.
 func runHistory(s *state.StateDB, h []Op) (*runResult, []failure) {
@@ -610,7 +683,17 @@ func runHistory(s *state.StateDB, h []Op) (*runResult, []failure) {
 				}
 			}
 		}
+		fresh := false
+		if freshOp(o.K) {
+			v := s.VerifC12Account(addrs[o.A], nil)
+			fresh = !v.Present || v.Deleted
+		}
 		r := apply(s, o)
+		if fresh && r.Kind == "none" {
+			for _, f := range notFresh(s, o) {
+				fails = append(fails, failure{"recreate/not-fresh/" + f, fmt.Sprintf("%s on address #%d, which did not exist (never created, or removed at the end of an earlier transaction of the block), gives an account whose %s is not that of a new account plus this write: state of a destroyed predecessor leaks", o.K, o.A, f)})
+			}
+		}
 		switch o.K {
 		case "Snapshot":
 			if r.Kind == "id" {
@@ -714,7 +797,7 @@ func runHistory(s *state.StateDB, h []Op) (*runResult, []failure) {
 					}
 				}
 			}
-		case "EndTx": // revisions do not survive Finalize
+		case "EndTx", "RootTx": // revisions do not survive Finalize
 			snaps = map[int]*snapInfo{}
 			keptAt = map[int]int{}
 			kept = append(kept, o)
@@ -776,6 +859,7 @@ type ctx struct {
 	id     int
 	perSig map[string]int // failures reported per signature (the report keeps 200 in total)
 	treeID int            // next id of an EVM tree case
+	layerID int           // next id of a layered-storage case
 }
 
 // evalCase runs one history with all monitors; emit = also write the Coq case.
@@ -898,6 +982,10 @@ func corpus() []corpusCase {
 		{1, []Op{snap(), op("AddSize", 0), op("SubSize", 1), {K: "SetSize", A: 0, V: 9}, rev(0)}},
 		{4, []Op{snap(), op("AddSize", 0), rev(0)}},
 		{4, []Op{{K: "SetNonce", A: 0, V: 3}, snap(), {K: "SetCode", A: 0, C: []byte{}}, {K: "SetCode", A: 1, C: []byte{7, 7}}, rev(0)}},
+		// re-creation of an account that an earlier transaction destroyed while it held value (C02_3 class)
+		{6, []Op{op("CreateAccount", 0), {K: "AddBalance", A: 0, V: 7}}},
+		{6, []Op{{K: "AddBalance", A: 1, V: 7}, snap(), op("CreateAccount", 0), {K: "SetNonce", A: 0, V: 1}, rev(0), {K: "SetState", A: 0, S: 1, V: 4}}},
+		{6, []Op{snap(), op("CreateAccount", 1), {K: "AddBalance", A: 1, V: 2}, snap(), op("CreateAccount", 0), rev(1), {K: "SetCode", A: 0, C: []byte{9}}, rev(0), op("GetOrNew", 1)}},
 		// siblings: a completed frame followed by a failed one
 		{1, []Op{snap(), {K: "AddBalance", A: 1, V: 5}, {K: "SetState", A: 0, S: 0, V: 8}, snap(), {K: "SubBalance", A: 1, V: 5}, {K: "SetState", A: 0, S: 0, V: 0}, {K: "SetNonce", A: 1, V: 2}, rev(1)}},
 	}
@@ -1069,11 +1157,11 @@ func main() {
 	f := hlib.ParseFlags()
 	logger = hlib.QuietLogs()
 	rng := hlib.NewRng(f.Seed)
-	rep := hlib.NewReport("C12", "histories of StateDB mutators with nested Snapshot/RevertToSnapshot on the real StateDB over 6 pre-states "+
+	rep := hlib.NewReport("C12", "histories of StateDB mutators with nested Snapshot/RevertToSnapshot on the real StateDB over 7 pre-states "+
 		"(corpus incl. the F8 witness, exhaustive prefix+reverted-body sequences over a 22-op alphabet, random long histories); "+
 		"non-trivial = at least one successful revert that undoes journal entries; distinct by (pre-state, set of op kinds, number of such reverts)")
 	cw := hlib.NewCaseWriter(f.Out, "From Coq Require Import List NArith ZArith Bool.\nFrom GQ Require Import Lib.Key Lib.SMap Model.C12.\nImport ListNotations.\nLocal Open Scope N_scope.\n", "C12.case", 65)
-	c := &ctx{rep: rep, cw: cw, perSig: map[string]int{}, treeID: 910000}
+	c := &ctx{rep: rep, cw: cw, perSig: map[string]int{}, treeID: 910000, layerID: 930000}
 
 	if f.Replay != "" {
 		var mode struct {
@@ -1092,10 +1180,21 @@ func main() {
 			var tc TopCase
 			hlib.ReadReplayCase(f.Replay, &tc)
 			c.evalTop(tc)
+		case "layer":
+			var lc LayerCase
+			hlib.ReadReplayCase(f.Replay, &lc)
+			if lc.ID >= 0 {
+				c.layerID = lc.ID
+			}
+			c.evalLayer(lc.Base, lc.A, lc.S, lc.Txs, "replay", true)
 		case "block":
 			var bc BlockCase
 			hlib.ReadReplayCase(f.Replay, &bc)
-			c.evalBlock(bc.Base, bc.Ops, "replay")
+			src := bc.Src
+			if src == "" {
+				src = "replay"
+			}
+			c.evalBlock(bc.Base, bc.Ops, src)
 		}
 		if mode.Mode != "" {
 			cw.Close()
@@ -1152,25 +1251,27 @@ func main() {
 	lap("trees")
 	blockCases(c, rng2.Fork(), f.Tier == "thorough")
 	lap("blocks")
+	layerCases(c, rng2.Fork(), f.Tier == "thorough")
+	lap("layers")
 	al := alphabet()
 	small := append(append([]Op{}, al[:9]...), Op{K: "Suicide", A: 1}, Op{K: "AddBalance", A: 1, V: 2}, Op{K: "AddLog", V: 1})
 	if f.Tier == "thorough" {
-		n := exhaustive(c, al, 3, []int{1, 2, 3, 5}, 250, rng.Fork())
+		n := exhaustive(c, al, 3, []int{1, 2, 3, 5, 6}, 250, rng.Fork())
 		n += exhaustive(c, al, 2, []int{0, 4}, 30, rng.Fork())
 		n += exhaustive(c, small, 4, []int{1}, 600, rng.Fork())
 		rep.Exhaustive = true
-		rep.Note(fmt.Sprintf("exhaustive: %d histories = every prefix+reverted body with |prefix|+|body| <= 3 over the 22-op alphabet on pre-states 1,2,3,5 (<= 2 on 0,4), <= 4 over a 12-op alphabet on pre-state 1; monitors on all, Coq cases for a sample", n))
+		rep.Note(fmt.Sprintf("exhaustive: %d histories = every prefix+reverted body with |prefix|+|body| <= 3 over the 22-op alphabet on pre-states 1,2,3,5,6 (<= 2 on 0,4), <= 4 over a 12-op alphabet on pre-state 1; monitors on all, Coq cases for a sample", n))
 	} else {
-		n := exhaustive(c, al, 2, []int{0, 1, 2, 3, 4, 5}, 45, rng.Fork())
+		n := exhaustive(c, al, 2, []int{0, 1, 2, 3, 4, 5, 6}, 45, rng.Fork())
 		m := 0
 		sr := rng.Fork()
 		for ; m < 1000; m++ { // sampled depth-3 histories
 			cur := []Op{al[sr.Intn(len(al))], al[sr.Intn(len(al))], al[sr.Intn(len(al))]}
 			split := sr.Intn(3)
 			h := append(append(append(append([]Op{}, cur[:split]...), snap()), cur[split:]...), rev(0))
-			c.evalCase([]int{1, 1, 5, 2, 3}[sr.Intn(5)], h, "sampled-depth3", sr.Intn(20) == 0)
+			c.evalCase([]int{1, 1, 5, 2, 3, 6}[sr.Intn(6)], h, "sampled-depth3", sr.Intn(20) == 0)
 		}
-		rep.Note(fmt.Sprintf("exhaustive: %d histories = every prefix+reverted body with |prefix|+|body| <= 2 over the 22-op alphabet on all 6 pre-states, plus %d sampled of length 3; monitors on all, Coq cases for a sample", n, m))
+		rep.Note(fmt.Sprintf("exhaustive: %d histories = every prefix+reverted body with |prefix|+|body| <= 2 over the 22-op alphabet on all 7 pre-states, plus %d sampled of length 3; monitors on all, Coq cases for a sample", n, m))
 	}
 	for i := 0; i < f.N; i++ {
 		su := rng.Intn(nSetups)
